@@ -5,27 +5,27 @@ import numpy as np
 import ttgen
 
 def _dense(x):
-    return ttgen.ref_full([c.detach().resolve_conj().numpy() for c in x.cores])
+    return ttgen.ref_full([c.detach().resolve_conj().resolve_neg().numpy() for c in x.cores])
 
 def readouts(torch, torchtt, x, rows, extras=()):
     """what the public API says about x (a dict of numpy arrays / floats)"""
-    out = {"full": x.full().detach().resolve_conj().numpy()}
+    out = {"full": x.full().detach().resolve_conj().resolve_neg().numpy()}
     out["numpy"] = np.asarray(x.numpy())
-    out["sum"] = np.asarray(x.sum().detach().resolve_conj().numpy() if hasattr(x.sum(), "detach") else x.sum())
+    out["sum"] = np.asarray(x.sum().detach().resolve_conj().resolve_neg().numpy() if hasattr(x.sum(), "detach") else x.sum())
     out["norm2"] = float(abs(x.norm(True)))
     out["norm"] = float(abs(x.norm()))
     if x.is_ttm:
-        out["t"] = x.t().full().detach().resolve_conj().numpy()
+        out["t"] = x.t().full().detach().resolve_conj().resolve_neg().numpy()
     else:
-        out["mask"] = x.apply_mask(torch.tensor(rows)).detach().resolve_conj().numpy()
-        out["dot"] = np.asarray(torchtt.dot(x, x).detach().resolve_conj().numpy())
-    out["round"] = x.round(1e-13).full().detach().resolve_conj().numpy()
+        out["mask"] = x.apply_mask(torch.tensor(rows)).detach().resolve_conj().resolve_neg().numpy()
+        out["dot"] = np.asarray(torchtt.dot(x, x).detach().resolve_conj().resolve_neg().numpy())
+    out["round"] = x.round(1e-13).full().detach().resolve_conj().resolve_neg().numpy()
     r = x.round(0.3)
-    out["round(0.3) within 0.3 |x|"] = r.full().detach().resolve_conj().numpy()
+    out["round(0.3) within 0.3 |x|"] = r.full().detach().resolve_conj().resolve_neg().numpy()
     if x.cores[0].dtype in (torch.float64, torch.complex128):
         out["round(1e-10) ranks"] = [int(v) for v in x.round(1e-10).R]
-    out["clone"] = x.clone().full().detach().resolve_conj().numpy()
-    out["neg"] = (-x).full().detach().resolve_conj().numpy()
+    out["clone"] = x.clone().full().detach().resolve_conj().resolve_neg().numpy()
+    out["neg"] = (-x).full().detach().resolve_conj().resolve_neg().numpy()
     for nm, f, _r in extras: out[nm] = f(x)
     return out
 
